@@ -190,4 +190,194 @@ theorem connClose_steps (C : List Nat) (s : State) (c : Nat) : Steps C s (connCl
         | exact closeFp_steps C _ _
         | exact .refl _
 
+
+theorem connClose_inv {s : State} {L : List Nat} (c : Nat) (h : InvL s L) : InvL (connClose s c) L :=
+  steps_inv (C := []) (by simp) (connClose_steps [] s c) h
+
+theorem closeFp_inv {s : State} {L : List Nat} (r : Nat) (h : InvL s L) : InvL (closeFp s r) L :=
+  steps_inv (C := []) (by simp) (closeFp_steps [] s r) h
+
+theorem logEv_inv {s : State} {L : List Nat} (e : Ev) (h : InvL s L) : InvL (logEv s e) L :=
+  steps_inv (C := []) (by simp) (logEv_steps [] s e) h
+
+theorem filterMap_replicate_none (n : Nat) : (List.replicate n (none : Option Nat)).filterMap id = [] := by
+  induction n with
+  | zero => rfl
+  | succ k ih => simp [List.replicate_succ, ih]
+
+/-- `HTTPConnectionPool.__init__` establishes the invariant -/
+theorem init_inv (n : Nat) (b p : Bool) (hn : 0 < n) : Inv (init n b p) := by
+  refine ⟨hn, ?_, ?_, ?_, ?_, ?_, ?_, ?_⟩ <;>
+    simp [init, owned, queued, held, filterMap_replicate_none]
+
+/-! ### the steps that change who owns a connection -/
+
+theorem connClose_conns (s : State) (c : Nat) :
+    (connClose s c).conns = s.conns.modify c fun x => { x with sock := none, http := .idle, pending := none, proxyConnected := false } := by
+  have hn : ∀ (t : State) (k : Nat), (noteClose t k).conns = t.conns := by
+    intro t k; unfold noteClose; split <;> rfl
+  have hf : ∀ (t : State) (r : Nat), (closeFp t r).conns = t.conns := by
+    intro t r; unfold closeFp; split
+    · rfl
+    · split
+      · rfl
+      · rw [hn]; rfl
+  unfold connClose
+  split
+  · rename_i h
+    rw [List.modify_eq_self]
+    simp at h
+    exact h
+  · split <;> split <;> simp [hf, hn, setConn]
+
+theorem connClose_sock_none (s : State) (c : Nat) (cn : Conn) (h : (connClose s c).conns[c]? = some cn) :
+    cn.sock = none := by
+  rw [connClose_conns] at h
+  cases hx : s.conns[c]? with
+  | none => simp [List.getElem?_modify, hx] at h
+  | some x => simp [List.getElem?_modify, hx] at h; rw [← h]
+
+/-- giving up a lease whose connection is closed, when the pool is closed or full and not blocking -/
+theorem drop_lease {s : State} {L : List Nat} {c : Nat} (h : InvL s (c :: L))
+    (hs : ∀ cn, s.conns[c]? = some cn → cn.sock = none)
+    (hq : s.closed = true ∨ (s.maxsize ≤ s.queue.length ∧ s.block = false)) : InvL s L := by
+  have hsub : ∀ x, x ∈ owned s L → x ∈ owned s (c :: L) := by
+    intro x hx; simp [owned] at hx ⊢; rcases hx with h1 | h1 | h1 <;> simp [h1]
+  have hnd := h.nodup
+  refine ⟨h.pos, ?_, ?_, fun x hx => h.bound x (hsub x hx), h.closedq, h.len, ?_, ?_⟩
+  · simp only [owned] at hnd ⊢
+    rw [List.nodup_append] at hnd ⊢
+    refine ⟨hnd.1, ?_, ?_⟩
+    · exact (List.nodup_cons.mp hnd.2.1).2
+    · intro a ha b hb; exact hnd.2.2 a ha b (List.mem_cons_of_mem _ hb)
+  · intro c' cn hc' hsk
+    have := h.live c' cn hc' hsk
+    simp [owned] at this ⊢
+    rcases this with h1 | rfl | h1 | h1
+    · exact Or.inl h1
+    · exact absurd (hs cn hc') hsk
+    · exact Or.inr (Or.inl h1)
+    · exact Or.inr (Or.inr h1)
+  · intro hc
+    rcases hq with hq | ⟨hq, _⟩
+    · rw [hq] at hc; cases hc
+    · omega
+  · intro hc hb
+    rcases hq with hq | ⟨_, hq⟩
+    · rw [hq] at hc; cases hc
+    · rw [hq] at hb; cases hb
+
+/-- `self.pool.put(x)` for `x` = the leased connection or the `None` placeholder that replaces it -/
+theorem enqueue_inv {s : State} {L : List Nat} {c : Nat} (x : Option Nat) (h : InvL s (c :: L))
+    (hx : x = some c ∨ (x = none ∧ ∀ cn, s.conns[c]? = some cn → cn.sock = none))
+    (hc : s.closed = false) (hl : s.queue.length < s.maxsize) :
+    InvL { s with queue := x :: s.queue } L := by
+  have hnd := h.nodup
+  have hsub : ∀ y, y ∈ owned { s with queue := x :: s.queue } L → y ∈ owned s (c :: L) := by
+    intro y hy
+    rcases hx with rfl | ⟨rfl, _⟩ <;> simp [owned, queued, held] at hy ⊢ <;> grind
+  refine ⟨h.pos, ?_, ?_, fun y hy => h.bound y (hsub y hy), ?_, ?_, ?_, ?_⟩
+  · rcases hx with rfl | ⟨rfl, _⟩
+    · have : (owned { s with queue := some c :: s.queue } L).Perm (owned s (c :: L)) := by
+        simp only [owned, queued, held, List.filterMap_cons, id]
+        exact (List.perm_middle (a := c) (l₁ := List.filterMap id s.queue)).symm
+      exact this.nodup_iff.mpr hnd
+    · simp only [owned, queued, held, List.filterMap_cons, id] at hnd ⊢
+      rw [List.nodup_append] at hnd ⊢
+      refine ⟨hnd.1, (List.nodup_cons.mp hnd.2.1).2, ?_⟩
+      intro a ha b hb; exact hnd.2.2 a ha b (List.mem_cons_of_mem _ hb)
+  · intro c' cn hc' hsk
+    have := h.live c' cn hc' hsk
+    rcases hx with rfl | ⟨rfl, hs⟩ <;> simp [owned, queued, held] at this ⊢
+    · grind
+    · rcases this with h1 | rfl | h1 | h1
+      · exact Or.inl h1
+      · exact absurd (hs cn hc') hsk
+      · exact Or.inr (Or.inl h1)
+      · exact Or.inr (Or.inr h1)
+  · intro hcl; simp at hcl; rw [hc] at hcl; cases hcl
+  · simp; omega
+  · intro _; have := h.slots hc; simp [held] at this ⊢; omega
+  · intro _ hb; have := h.slotsB hc hb; simp [held] at this ⊢; omega
+
+
+theorem step_frame {C : List Nat} {s s' : State} (st : Step C s s') :
+    s'.queue = s.queue ∧ s'.maxsize = s.maxsize ∧ s'.block = s.block ∧ s'.closed = s.closed := by
+  cases st <;> simp_all [setResp, setConn]
+
+theorem steps_frame {C : List Nat} {s s' : State} (st : Steps C s s') :
+    s'.queue = s.queue ∧ s'.maxsize = s.maxsize ∧ s'.block = s.block ∧ s'.closed = s.closed := by
+  induction st with
+  | refl => simp
+  | cons a _ ih => have := step_frame a; grind
+
+theorem connClose_frame (s : State) (c : Nat) :
+    (connClose s c).queue = s.queue ∧ (connClose s c).maxsize = s.maxsize ∧ (connClose s c).block = s.block ∧
+      (connClose s c).closed = s.closed := steps_frame (connClose_steps [] s c)
+
+/-- `_put_conn(conn)` with the leased connection: the lease ends, the invariant holds again (the
+`FullPoolError` branch is excluded by the counting clause) -/
+theorem putConn_lease_inv {s : State} {L : List Nat} {c : Nat} (h : InvL s (c :: L)) :
+    InvL (putConn s (some c)).1 L := by
+  have h0 : InvL (logEv s (.put (some c))) (c :: L) := logEv_inv _ h
+  unfold putConn
+  generalize logEv s (.put (some c)) = s0 at h0 ⊢
+  simp only
+  by_cases hcl : s0.closed = true
+  · simp only [hcl, Bool.not_true, Bool.false_eq_true, if_false]
+    exact drop_lease (connClose_inv c h0) (fun cn hcn => connClose_sock_none _ _ _ hcn)
+      (Or.inl (by rw [(connClose_frame s0 c).2.2.2]; exact hcl))
+  · have hcl' : s0.closed = false := by cases hx : s0.closed <;> simp_all
+    simp only [hcl', Bool.not_false, if_true]
+    by_cases hf : queueFull s0 = true
+    · have hfull : s0.maxsize ≤ s0.queue.length := by simp [queueFull] at hf; exact hf.2
+      simp only [hf, Bool.not_true, Bool.false_eq_true, if_false]
+      by_cases hb : s0.block = true
+      · have := h0.slotsB hcl' hb; simp at this; omega
+      · have hb' : s0.block = false := by cases hx : s0.block <;> simp_all
+        simp only [hb', Bool.false_eq_true, if_false]
+        have f1 := connClose_frame s0 c
+        have f2 := connClose_frame (connClose s0 c) c
+        exact drop_lease (connClose_inv c (connClose_inv c h0)) (fun cn hcn => connClose_sock_none _ _ _ hcn)
+          (Or.inr ⟨by rw [f2.1, f2.2.1, f1.1, f1.2.1]; exact hfull, by rw [f2.2.2.1, f1.2.2.1]; exact hb'⟩)
+    · have hf' : queueFull s0 = false := by cases hx : queueFull s0 <;> simp_all
+      simp only [hf', Bool.not_false, if_true]
+      have hpos := h0.pos
+      have hl : s0.queue.length < s0.maxsize := by simp [queueFull] at hf'; omega
+      have e := enqueue_inv (some c) h0 (Or.inl rfl) hcl' hl
+      simp only [hcl'] at e; exact e
+
+/-- the `finally` clause after an unclean exit: `conn.close(); conn = None; self._put_conn(None)` -/
+theorem discard_lease_inv {s : State} {L : List Nat} {c : Nat} (h : InvL s (c :: L)) :
+    InvL (discard s (some c)).1 L := by
+  have h1 : InvL (connClose s c) (c :: L) := connClose_inv c h
+  have hs : ∀ cn, (connClose s c).conns[c]? = some cn → cn.sock = none := fun cn hcn => connClose_sock_none _ _ _ hcn
+  unfold discard
+  simp only
+  generalize connClose s c = s1 at h1 hs ⊢
+  have h0 : InvL (logEv s1 (.put none)) (c :: L) := logEv_inv _ h1
+  have hs0 : ∀ cn, (logEv s1 (.put none)).conns[c]? = some cn → cn.sock = none := hs
+  unfold putConn
+  generalize logEv s1 (.put none) = s0 at h0 hs0 ⊢
+  simp only
+  by_cases hcl : s0.closed = true
+  · simp only [hcl, Bool.not_true, Bool.false_eq_true, if_false]
+    exact drop_lease h0 hs0 (Or.inl hcl)
+  · have hcl' : s0.closed = false := by cases hx : s0.closed <;> simp_all
+    simp only [hcl', Bool.not_false, if_true]
+    by_cases hf : queueFull s0 = true
+    · have hfull : s0.maxsize ≤ s0.queue.length := by simp [queueFull] at hf; exact hf.2
+      simp only [hf, Bool.not_true, Bool.false_eq_true, if_false]
+      by_cases hb : s0.block = true
+      · have := h0.slotsB hcl' hb; simp at this; omega
+      · have hb' : s0.block = false := by cases hx : s0.block <;> simp_all
+        simp only [hb', Bool.false_eq_true, if_false]
+        exact drop_lease h0 hs0 (Or.inr ⟨hfull, hb'⟩)
+    · have hf' : queueFull s0 = false := by cases hx : queueFull s0 <;> simp_all
+      simp only [hf', Bool.not_false, if_true]
+      have hpos := h0.pos
+      have hl : s0.queue.length < s0.maxsize := by simp [queueFull] at hf'; omega
+      have e := enqueue_inv none h0 (Or.inr ⟨rfl, hs0⟩) hcl' hl
+      simp only [hcl'] at e; exact e
+
 end U3.Pool
